@@ -67,8 +67,8 @@ func (w *seqWorld) tamper(c0 *seqCmd) {
 	if applied != "" {
 		w.orc.tampered = true
 		tok := "gone"
-		if d, _, ok := w.object(c.Key); ok {
-			tok = sqHx(sqSha(d))
+		if d, o, ok := w.object(c.Key); ok {
+			tok = strings.ReplaceAll((&instBackend{w: w}).payloadToken(c.Key, d, o), " ", "_")
 		}
 		w.ev("- tamper %s %s %s", c.Key, applied, tok)
 		w.st.Count("tamper:" + applied)
